@@ -223,11 +223,13 @@ def run(prop: str, tier: str) -> int:
         histories = 0
         if prop == "C01":
             from netqasm.lang.parsing import binary as _bin
-            per_fl = {fl: [v for v in vecs if v["fl"] == fl and v["id"] not in failed_vecs] for fl in ("vanilla", "nv")}
+            per_fl = {fl: [v for v in vecs if v["fl"] == fl and v["id"] not in failed_vecs] for fl in ("vanilla", "nv", "reids")}
             step = 1 if tier == "thorough" else 7
-            for fl in ("vanilla", "nv"):
+            for fl in ("vanilla", "nv", "reids"):
                 vs = per_fl[fl][::step]
-                other = per_fl["nv" if fl == "vanilla" else "vanilla"]
+                if not vs:
+                    continue
+                other = per_fl["nv" if fl != "nv" else "vanilla"]
                 own_ops = {e["op"] for e in table[fl]}
                 foreign = [bytes(o["bytes"]) for o in other if o["bytes"][0] not in own_ops][:3] or [bytes([255, 0, 0, 0, 0, 0, 0])]
                 subs3 = [vs[i:i + 3] for i in range(0, len(vs) - 2, 3)]
